@@ -199,7 +199,7 @@ class VComm:
     def _spec(x):
         x = _buf(x)
         if isinstance(x, np.ndarray):
-            return (tuple(x.shape), str(x.dtype))
+            return (x.shape, x.dtype.str)
         if x is None:
             return None
         return type(x).__name__
